@@ -263,6 +263,16 @@ def build(P):
                 call = ", ".join(a)
                 plist.append("\n".join(base + [("d <- Show(%s)" if kind == "FUNCTION" else "CALL Show(%s)") % call, "OUTPUT \"after\""]))
                 plist.append("\n".join(base + [("d <- Show(%s)" if kind == "FUNCTION" else "CALL Show(%s)") % ", ".join(good), "OUTPUT \"after\""]))
+        # the empty string is not a character: BYVAL CHAR parameter, RETURNS CHAR, both routine kinds; the lookup of a free name in a callee goes to the GLOBAL scope, not to the caller's
+        for argv in ['""', '"ab"', '"a"', "'a'"]:
+            plist.append("\n".join(["PROCEDURE ShowC(c : CHAR)", "OUTPUT \"proc code \", ASC(c)", "ENDPROCEDURE", "CALL ShowC(%s)" % argv, "OUTPUT \"end\""]))
+            plist.append("\n".join(["FUNCTION CodeOf(c : CHAR) RETURNS INTEGER", "RETURN ASC(c)", "ENDFUNCTION", "OUTPUT \"fn \", CodeOf(%s)" % argv, "OUTPUT \"end\""]))
+            plist.append("\n".join(["FUNCTION Mk() RETURNS CHAR", "RETURN %s" % argv, "ENDFUNCTION", "OUTPUT \"fn \", ASC(Mk())", "OUTPUT \"end\""]))
+            plist.append("\n".join(["DECLARE s : STRING", "s <- %s" % (argv if argv[0] == '"' else '"z"'), "PROCEDURE ShowC(c : CHAR)", "OUTPUT \"proc code \", ASC(c)", "ENDPROCEDURE", "CALL ShowC(s)", "OUTPUT \"end\""]))
+        for gdecl in ["g <- 100", "CONSTANT g = 100", "DECLARE g : ARRAY[1:2] OF INTEGER\ng[1] <- 100"]:
+            gref = "g[1]" if "ARRAY" in gdecl else "g"
+            plist.append("\n".join([gdecl, "PROCEDURE Callee()", "OUTPUT \"proc callee sees \", %s" % gref, "ENDPROCEDURE", "PROCEDURE Caller()", "DECLARE g : INTEGER", "g <- 5", "CALL Callee()", "OUTPUT \"caller \", g", "ENDPROCEDURE", "CALL Caller()",
+                                     "FUNCTION Peek() RETURNS INTEGER", "RETURN %s" % gref, "ENDFUNCTION", "PROCEDURE Caller2(g : INTEGER)", "OUTPUT \"proc peek \", Peek(), \" \", g", "ENDPROCEDURE", "CALL Caller2(7)"]))
         # local arrays / records shadowing global ones
         for kind, head, tail, call in [("proc", "PROCEDURE Run()", "ENDPROCEDURE", "CALL Run()"), ("fn", "FUNCTION Run() RETURNS INTEGER", "RETURN 0\nENDFUNCTION", "d <- Run()")]:
             plist.append("\n".join(["DECLARE g : ARRAY[1:3] OF INTEGER", "g[2] <- 7", head, "DECLARE g : ARRAY[1:2] OF STRING", "g[2] <- \"local\"", "OUTPUT \"proc \", g[2]", tail, call, call, "OUTPUT g[2]"]))
